@@ -147,6 +147,76 @@ func (x *exch) oracle(r *hk.Run) {
 	}
 }
 
+// crossOracle: the same abstract response fetched over HTTP/1.1, HTTP/2 and HTTP/3 gives the same result
+func crossOracle(r *hk.Run, xs []*exch) {
+	groups := map[int][]*exch{}
+	for _, x := range xs {
+		if x.Group > 0 {
+			groups[x.Group] = append(groups[x.Group], x)
+		}
+	}
+	for _, g := range groups {
+		ref := g[0]
+		for _, x := range g[1:] {
+			if x.s.Hung || x.s.NoResp || ref.s.Hung || ref.s.NoResp {
+				continue // reported by the per-exchange oracle
+			}
+			fail := func(what string, got, want interface{}) {
+				r.Fail(hk.Failure{Sig: "cross:" + ref.Proto + "-" + x.Proto + ":" + what, What: "the same response gives a different " + what + " over " + ref.Proto + " and " + x.Proto,
+					Input: x.desc(), Got: got, Want: want})
+			}
+			if x.s.Code != ref.s.Code {
+				fail("status", x.s.Code, ref.s.Code)
+			}
+			ha, hb := endToEnd(ref, ref.s.Header), endToEnd(x, x.s.Header)
+			if !reflect.DeepEqual(ha, hb) {
+				fail("header", hb, ha)
+			}
+			if ref.carriesTrailers() && x.carriesTrailers() {
+				ta, tb := nonEmpty(ref.s.Trailer), nonEmpty(x.s.Trailer)
+				if !reflect.DeepEqual(ta, tb) {
+					fail("trailer", tb, ta)
+				}
+			}
+			ba, bb := ref.delivered(), x.delivered()
+			if !bytes.Equal(ba, bb) {
+				fail("body", digest(bb), digest(ba))
+			}
+		}
+	}
+}
+
+func endToEnd(x *exch, h map[string][]string) map[string][]string {
+	m := map[string][]string{}
+	for k, vs := range h {
+		if !x.transportField(k, vs) {
+			m[k] = vs
+		}
+	}
+	return m
+}
+
+func nonEmpty(h map[string][]string) map[string][]string {
+	m := map[string][]string{}
+	for k, vs := range h {
+		if len(vs) > 0 {
+			m[k] = vs
+		}
+	}
+	return m
+}
+
+// delivered: the body bytes the caller obtained in this exchange's read mode
+func (x *exch) delivered() []byte {
+	switch x.Mode {
+	case "auto":
+		return x.s.Bytes
+	case "stream", "tobytes":
+		return x.s.Stream
+	}
+	return x.s.Out
+}
+
 func (x *exch) carriesTrailers() bool {
 	if x.Method == "HEAD" || !bodyAllowed(x.A.Code) {
 		return false
@@ -161,8 +231,13 @@ func (x *exch) declaresLength() bool {
 	if !bodyAllowed(x.A.Code) {
 		return false
 	}
-	if x.Proto == "h1" {
+	switch x.Proto {
+	case "h1":
 		return x.H1.Framing == wire.FrCL
+	case "h2":
+		return x.H2.Declare
+	case "h3":
+		return x.H3.Declare
 	}
 	return false
 }
@@ -173,7 +248,7 @@ func (x *exch) transportField(k string, vs []string) bool {
 	a := x.A
 	switch k {
 	case "Content-Length":
-		if x.Proto == "h1" && x.H1.Framing == wire.FrCL {
+		if x.Proto == "h1" && x.H1.Framing == wire.FrCL || x.Proto == "h2" && x.H2.Declare || x.Proto == "h3" && x.H3.Declare {
 			return len(vs) == 1 && vs[0] == fmt.Sprint(len(a.Body))
 		}
 	case "Cache-Control":
